@@ -150,6 +150,8 @@ def _lemma_b58val_nonneg(t):
 
 
 SECP_P = 0xFFFFFFFFFFFFFFFFFFFFFFFFFFFFFFFFFFFFFFFFFFFFFFFFFFFFFFFEFFFFFC2F
+SECP_N = 0xFFFFFFFFFFFFFFFFFFFFFFFFFFFFFFFEBAAEDCE6AF48A03BBFD25E8CD0364141
+SECP_G = (0x79BE667EF9DCBBAC55A06295CE870B07029BFCDB2DCE28D959F2815B16F81798, 0x483ADA7726A3C4655DA4FBFC0E1108A8FD17B448A68554199C47D08FFB10D4B8)
 
 
 def _lemma_pow_zero(t):
@@ -197,7 +199,68 @@ def _lemma_sq_eq(t):
     return out
 
 
-LEMMAS = {"sq_eq": _lemma_sq_eq, "b58val_nonneg": _lemma_b58val_nonneg, "pow_zero": _lemma_pow_zero, "no_two_torsion": _lemma_no_two_torsion}   # enabled per theorem via options["lemmas"]
+_SQRT_TERMS = {}
+
+
+def _sqrt_inst(s_, c_, t2, b2):
+    return z3.Implies(z3.And(t2 == c_ % SECP_P, b2 >= 0, b2 < SECP_P),
+                      z3.Or(s_ == b2, s_ + b2 == SECP_P, z3.And(s_ == 0, b2 == 0)))
+
+
+def _lemma_sqrt_root(t):
+    """p = 3 (mod 4) prime: if c = b*b (mod p) then c**((p+1)/4) mod p is b or p - b   (ASSUMED field fact; Euler's
+    criterion + sq_eq_sq_field).  Instantiated for every pair (sqrt-candidate term, square term) of the query."""
+    out = []
+    if t.decl().kind() == z3.Z3_OP_UNINTERPRETED and t.decl().name() == "powmod":
+        c_, e_, m_ = t.children()
+        if z3.is_int_value(m_) and m_.as_long() == SECP_P and z3.is_int_value(e_) and e_.as_long() == (SECP_P + 1) // 4:
+            for (t2, b2) in list(_SQ_TERMS.values()):
+                out.append(_sqrt_inst(t, c_, t2, b2))
+            _SQRT_TERMS[t.get_id()] = (t, c_)
+    if z3.is_app_of(t, z3.Z3_OP_MOD) and z3.is_int_value(t.arg(1)) and t.arg(1).as_long() == SECP_P:
+        a = t.arg(0)
+        if z3.is_app_of(a, z3.Z3_OP_MUL) and len(a.children()) == 2 and a.arg(0).eq(a.arg(1)):
+            for (s_, c_) in list(_SQRT_TERMS.values()):
+                out.append(_sqrt_inst(s_, c_, t, a.arg(0)))
+            if t.get_id() not in _SQ_TERMS:
+                _SQ_TERMS[t.get_id()] = (t, a.arg(0))
+    return out
+
+
+def _lemma_smul_add(t):
+    """A-group (ASSUMED, textbook): E(F_p) is an abelian group and n*G = O, so k -> k*G is a homomorphism Z/n -> E:
+         ((a + b) % n) * G == a*G + b*G.      Instantiated for every scalar of the syntactic form (a + b) % n."""
+    out = []
+    if t.decl().kind() == z3.Z3_OP_UNINTERPRETED and t.decl().name() == "spec_smul_inf":
+        k, x, y = t.children()
+        if z3.is_app_of(k, z3.Z3_OP_MOD) and z3.is_int_value(k.arg(1)) and k.arg(1).as_long() == SECP_N \
+                and z3.is_app_of(k.arg(0), z3.Z3_OP_ADD) and len(k.arg(0).children()) == 2 \
+                and z3.is_int_value(x) and z3.is_int_value(y) and (x.as_long(), y.as_long()) == SECP_G:
+            a, b = k.arg(0).children()
+            fi, fx, fy = (UF("spec_smul_inf"), UF("spec_smul_x"), UF("spec_smul_y"))
+            pi, px, py = (UF("spec_padd_inf"), UF("spec_padd_x"), UF("spec_padd_y"))
+            if any(f_ is None for f_ in (fi, fx, fy, pi, px, py)):
+                return out
+            ia, ib, ik = fi(a, x, y), fi(b, x, y), t
+            ax, ay, bx, by = fx(a, x, y), fy(a, x, y), fx(b, x, y), fy(b, x, y)
+            kx, ky = fx(k, x, y), fy(k, x, y)
+            pre = z3.And(a >= 0, b >= 0)
+            out.append(z3.Implies(z3.And(pre, ia), z3.And(ik == ib, z3.Implies(z3.Not(ib), z3.And(kx == bx, ky == by)))))
+            out.append(z3.Implies(z3.And(pre, z3.Not(ia), ib), z3.And(z3.Not(ik), kx == ax, ky == ay)))
+            both = z3.And(pre, z3.Not(ia), z3.Not(ib))
+            out.append(z3.Implies(both, ik == pi(ax, ay, bx, by)))
+            out.append(z3.Implies(z3.And(both, z3.Not(ik)), z3.And(kx == px(ax, ay, bx, by), ky == py(ax, ay, bx, by))))
+    return out
+
+
+def UF(name):
+    ent = UF_SPECS.get(name)
+    if ent is None:
+        return None
+    return decl_of(*ent)
+
+
+LEMMAS = {"sqrt_root": _lemma_sqrt_root, "smul_add": _lemma_smul_add, "sq_eq": _lemma_sq_eq, "b58val_nonneg": _lemma_b58val_nonneg, "pow_zero": _lemma_pow_zero, "no_two_torsion": _lemma_no_two_torsion}   # enabled per theorem via options["lemmas"]
 
 
 def lemma_rules(thm):
